@@ -266,6 +266,23 @@ class FixedList(Ty):
         return tuple(vals) if self.as_tuple else vals
 
 
+class CtxOf(Ty):
+    """The result of an `@contextmanager` generator function used through its contract: yields one value."""
+
+    def __init__(self, inner):
+        self.inner = inner
+
+    def make(self, interp, name):
+        from .interp import GenObj
+        v = self.inner.make(interp, name) if isinstance(self.inner, Ty) else self.inner
+
+        def runner(gen):
+            gen.do_yield(v)
+            return None
+
+        return GenObj(interp, runner, name)
+
+
 class Opaq(Ty):
     """A value about which nothing is known and on which nothing is done (passed through)."""
 
@@ -282,6 +299,36 @@ class Custom(Ty):
 
     def make(self, interp, name):
         return self.fn(interp, name)
+
+
+class IterOf(Ty):
+    """An iterator (position 0) over a fresh sequence of symbolic length: the shape of a `lines: Iterator[str]`
+    parameter, and of the result of a generator function used through its contract."""
+
+    def __init__(self, elem, min_len=0):
+        self.elem = elem
+        self.min_len = min_len
+
+    def make(self, interp, name):
+        from .models import SIter
+        return SIter(ListOf(self.elem, self.min_len).make(interp, name), 0)
+
+
+class InPlace:
+    """`modifies` entry for an object whose (ghost) fields a loop body changes through method calls:
+    the named fields are havocked in place, the object identity is kept."""
+
+    def __init__(self, **fields):
+        self.fields = fields
+
+    def havoc_in_place(self, interp, obj, tag):
+        from .values import Opaque
+        for k, ty in self.fields.items():
+            v = ty.make(interp, '%s.%s' % (tag, k)) if isinstance(ty, Ty) else ty
+            if isinstance(obj, Opaque):
+                obj._pv_ghost[k] = v
+            else:
+                interp.setattr(obj, k, v)
 
 
 def make_indexed(interp, ty, uid, idx_term):
@@ -340,12 +387,14 @@ class Interface:
 
     target_class : the real (abstract) class the objects claim to be instances of
     attrs        : {name: Ty}           -- pure attributes / properties (cached per object)
+    props        : {name: model(interp, self)}  -- computed properties (evaluated at every read)
     attr_raises  : {name: (predicate(self), ExceptionClass)}  -- reading raises when predicate
     methods      : {name: Method}
     invariant    : optional staticmethod predicate(self) assumed when an object is created
     """
     target_class = None
     attrs = {}
+    props = {}
     attr_raises = {}
     methods = {}
     invariant = None
@@ -492,6 +541,9 @@ class Registry:
                 raise PyRaise(exc('interface: %s not available' % name))
         if name in o._pv_attrs:
             return o._pv_attrs[name]
+        pm = _iface_lookup(iface, 'props', name)
+        if pm is not None:
+            return pm(interp, o)       # computed property: model(interp, self), evaluated at every read
         ty = _iface_lookup(iface, 'attrs', name)
         if ty is not None:
             if o._pv_index:
@@ -517,7 +569,8 @@ class Registry:
 
     def opaque_has(self, interp, o, name):
         iface = o._pv_iface
-        return _iface_lookup(iface, 'attrs', name) is not None or _iface_lookup(iface, 'methods', name) is not None
+        return _iface_lookup(iface, 'attrs', name) is not None or _iface_lookup(iface, 'methods', name) is not None \
+            or _iface_lookup(iface, 'props', name) is not None
 
     def opaque_type(self, interp, o):
         return o._pv_cls
